@@ -59,37 +59,41 @@ inductive StepRes where
   | done (r : MRes)
   | next (st : PState)
 
-/-- vm.go:2098-2136, one iteration of the result loop; `c` is the scheduler's choice of which
-outstanding result arrives. -/
+/-- vm.go:2098-2136, the body of the result loop for the arriving result of task `(ki, sg)`;
+`rest` = the tasks still outstanding. -/
+def parDeliver (sigs : List Sig) (keys : List Key) (st : PState) (ki sg : Nat) (rest : List (Nat × Nat)) : StepRes :=
+  match sigs[sg]?, keys[ki]? with
+  | some s, some k =>
+    let rok := ok s k                                -- r.ok
+    let goingForward := !(sg == st.s2)               -- l.2102-2105
+    if st.k1 + 1 == st.k2 then                        -- l.2106
+      let sigok := rok && (st.s1 + 1 == st.s2)
+      if rest.length != 0 && sigok then .next { st with sigok := sigok, out := rest }
+      else .done (.ofBool sigok)
+    else if rok && (st.s1 + 1 == st.s2) then          -- l.2112-2118
+      if rest.length != 0 && st.sigok then .next { st with out := rest }
+      else .done (.ofBool st.sigok)
+    else
+      -- l.2119-2123 (only if r.ok), then l.2126-2137
+      let s1 := if rok && goingForward then st.s1 + 1 else st.s1
+      let s2 := if rok && !goingForward then st.s2 - 1 else st.s2
+      let k1 := if goingForward then st.k1 + 1 else st.k1
+      let k2 := if goingForward then st.k2 else st.k2 - 1
+      let nextSig := if goingForward then s1 else s2
+      let nextKey := if goingForward then k1 else k2
+      match keys[nextKey]? with
+      | none => .done .panic                          -- pubs[nextKey]: index out of range
+      | some _ =>
+        .next { k1 := k1, k2 := k2, s1 := s1, s2 := s2, sigok := st.sigok,
+                out := rest ++ [(nextKey, nextSig)] }
+  | _, _ => .done .undef
+
+/-- one iteration of the result loop; `c` is the scheduler's choice of which outstanding result
+arrives. -/
 def parStep (sigs : List Sig) (keys : List Key) (c : Bool) (st : PState) : StepRes :=
   match pick c st.out with
   | none => .done .undef                               -- `range results` would block for ever
-  | some ((ki, sg), rest) =>
-    match sigs[sg]?, keys[ki]? with
-    | some s, some k =>
-      let rok := ok s k                                -- r.ok
-      let goingForward := !(sg == st.s2)               -- l.2102-2105
-      if st.k1 + 1 == st.k2 then                        -- l.2106
-        let sigok := rok && (st.s1 + 1 == st.s2)
-        if rest.length != 0 && sigok then .next { st with sigok := sigok, out := rest }
-        else .done (.ofBool sigok)
-      else if rok && (st.s1 + 1 == st.s2) then          -- l.2112-2118
-        if rest.length != 0 && st.sigok then .next { st with out := rest }
-        else .done (.ofBool st.sigok)
-      else
-        -- l.2119-2123 (only if r.ok), then l.2126-2137
-        let s1 := if rok && goingForward then st.s1 + 1 else st.s1
-        let s2 := if rok && !goingForward then st.s2 - 1 else st.s2
-        let k1 := if goingForward then st.k1 + 1 else st.k1
-        let k2 := if goingForward then st.k2 else st.k2 - 1
-        let nextSig := if goingForward then s1 else s2
-        let nextKey := if goingForward then k1 else k2
-        match keys[nextKey]? with
-        | none => .done .panic                          -- pubs[nextKey]: index out of range
-        | some _ =>
-          .next { k1 := k1, k2 := k2, s1 := s1, s2 := s2, sigok := st.sigok,
-                  out := rest ++ [(nextKey, nextSig)] }
-    | _, _ => .done .undef
+  | some ((ki, sg), rest) => parDeliver ok sigs keys st ki sg rest
 
 /-- the loop under schedule `σ` (a stream of choices), one iteration per unit of fuel. -/
 def parLoop (sigs : List Sig) (keys : List Key) : Nat → (Nat → Bool) → PState → MRes
